@@ -339,8 +339,23 @@ pub fn main(a: &Args) {
                                 Variant::Color3(c) if new_travel.wire_ty == VariantType::Color3uint8 => canon::value(&Variant::Color3uint8(crate::expect::quantise(c)), &no),
                                 other => canon::value(other, &no),
                             });
+                            // another class that has the target property too: read-side bookkeeping must be per class
+                            let other = dbwalk::sorted_class_names(db)
+                                .into_iter()
+                                .filter(|c| *c != class.as_str() && !dbwalk::is_service(db, c))
+                                .filter_map(|c| dbwalk::travel(db, c, &m.new_name).map(|t| (c, t)))
+                                .find(|(_, t)| t.wire_name == new_travel.wire_name && t.wire_ty == new_travel.wire_ty)
+                                .and_then(|(c, t)| {
+                                    norm(g.gen(&mut r, t.declared_ty)).map(|ov| {
+                                        let v = match &ov {
+                                            Variant::Color3(c3) if t.wire_ty == VariantType::Color3uint8 => canon::value(&Variant::Color3uint8(crate::expect::quantise(c3)), &no),
+                                            other => canon::value(other, &no),
+                                        };
+                                        json!({"class": c, "back": t.back_name, "wire_name": t.wire_name, "wire_ty": format!("{:?}", t.wire_ty), "value": v})
+                                    })
+                                });
                             let rec = json!({
-                                "kind": "c15", "n": n, "label": label, "class": class,
+                                "kind": "c15", "n": n, "label": label, "class": class, "other": other,
                                 "legacy": {"name": m.legacy, "wire_ty": format!("{:?}", legacy_wire_ty), "value": canon::value(lv, &no)},
                                 "new": newv.map(|v| json!({"back": new_travel.back_name, "wire_name": new_travel.wire_name, "wire_ty": format!("{:?}", new_travel.wire_ty), "value": v})),
                                 "expected_props": {new_travel.back_name.clone(): expected.get(&new_travel.back_name).cloned().unwrap_or(J::Null)},
